@@ -75,7 +75,34 @@ fn strat(bits: usize) -> BoxedStrategy<Case> {
         };
         Case::new().l(limbs_of(&nn, n)).l(d).n(5)
     });
-    prop_oneof![4 => indep, 4 => sized, 4 => constructed, 4 => copy_top, 2 => near, 1 => zero_div].boxed()
+    // divisors whose normalised leading 128 bits sit on (or one beside) the tie of the 3-by-2
+    // reciprocal's last correction step, with power-of-two numerators aligned to a limb top after
+    // the normalising shift, or numerators from the other shapes (widths above 128 bits)
+    let full = if bits % 64 == 0 { n } else { n.saturating_sub(1) }; // limbs that are entirely below 2^bits
+    let recip_tie = (limbs(n), uint(bits), 2usize..=full.max(2), 0u32..64, any::<u64>(), 0u8..8, 0u8..5).prop_map(move |(low, other, dl, lz, m, variant, dk)| {
+        if full < 3 {
+            return Case::new().l(other).l(mask_vec(low, bits)).n(0);
+        }
+        let dl = dl.min(full);
+        let delta = [0i64, 0, 0, 1, -1][dk as usize];
+        let d = match vcore::recip::tie_divisor(low[n - 1], m as usize >> 8, delta, dl, lz, &low) {
+            Some(mut d) => {
+                d.resize(n, 0);
+                d
+            }
+            None => return Case::new().l(other).l(mask_vec(low, bits)).n(0),
+        };
+        let lzd = d[dl - 1].leading_zeros();
+        let num = if variant < 6 {
+            let mut v = vcore::recip::pow2_numerator(full, lzd, m as usize, variant, &low);
+            v.resize(n, 0);
+            v
+        } else {
+            other
+        };
+        Case::new().l(mask_vec(num, bits)).l(d).n(6)
+    });
+    prop_oneof![4 => indep, 4 => sized, 4 => constructed, 4 => copy_top, 2 => near, 1 => zero_div, 3 => recip_tie].boxed()
 }
 
 fn body<const B: usize, const L: usize>(c: &Case, rec: &mut Rec) -> R {
@@ -115,7 +142,7 @@ fn body<const B: usize, const L: usize>(c: &Case, rec: &mut Rec) -> R {
     rec.class_if(nl == dl, "nlen==dlen");
     rec.class_if(nl < dl, "nlen<dlen");
     rec.class_if(c.l[1][dl - 1] >> 63 == 1, "divisor_normalised");
-    rec.class(match c.n.first() { Some(0) => "gen:independent", Some(1) => "gen:sized", Some(2) => "gen:constructed", Some(3) => "gen:copy_top", Some(4) => "gen:zero", Some(5) => "gen:near_or_largest_multiple", _ => "gen:enum" });
+    rec.class(match c.n.first() { Some(0) => "gen:independent", Some(1) => "gen:sized", Some(2) => "gen:constructed", Some(3) => "gen:copy_top", Some(4) => "gen:zero", Some(5) => "gen:near_or_largest_multiple", Some(6) => "gen:reciprocal_tie_divisor", _ => "gen:enum" });
     let nontrivial = !qe.is_zero() && db.count_ones() != 1;
     if nontrivial {
         rec.nontrivial(&(&c.l[0], &c.l[1]));
@@ -166,7 +193,7 @@ fn body<const B: usize, const L: usize>(c: &Case, rec: &mut Rec) -> R {
 fn main() {
     let spec = PropSpec {
         id: "C03",
-        rule_text: "cases (n,d) per width from 6 generator classes (n = d + {-1,0,1} and the largest multiple of d that fits + {-1,0,1}; independent alphabet values; divisors of every limb length with 0..63 leading zero bits; n=q*d+r built from extreme q,d,r; numerators copying the divisor's top limbs with perturbed lower limbs; d=0) plus exhaustive enumeration of all pairs for BITS<=8. Oracle: num-bigint quotient/remainder. Non-trivial: d!=0, quotient!=0 and d not a power of two; distinct by (rule,width,n,d).",
+        rule_text: "cases (n,d) per width from 7 generator classes (divisors whose normalised leading 128 bits are solved onto the tie of the 3-by-2 reciprocal's last correction step, with limb-aligned power-of-two numerators; n = d + {-1,0,1} and the largest multiple of d that fits + {-1,0,1}; independent alphabet values; divisors of every limb length with 0..63 leading zero bits; n=q*d+r built from extreme q,d,r; numerators copying the divisor's top limbs with perturbed lower limbs; d=0) plus exhaustive enumeration of all pairs for BITS<=8. Oracle: num-bigint quotient/remainder. Non-trivial: d!=0, quotient!=0 and d not a power of two; distinct by (rule,width,n,d).",
         assumptions: vec![
             "num-bigint division is correct (oracle)",
             "x86-64 little-endian target only",
